@@ -3,7 +3,7 @@ from __future__ import annotations
 
 import ast
 
-from .. import lit
+from .. import dl, lit
 from ..core import AnalysisError
 from ..src import call_name, dotted, mod, norm, stmt_key, walk_local
 from . import c10
@@ -26,6 +26,17 @@ SAFE_VALUE_METHODS = {"append", "extend", "join", "get", "bit_length", "is_integ
 FORBIDDEN_EV_ARMS = {"Attribute", "Lambda", "Await", "Yield", "YieldFrom", "GeneratorExp", "ListComp", "SetComp",
                      "DictComp", "Starred", "NamedExpr"}
 UNBOUNDED_OPS = {"Pow": "pow", "LShift": "lshift"}
+
+
+def _stmt_lists(node):
+    out = []
+    for f_ in ("body", "orelse", "finalbody"):
+        b = getattr(node, f_, None)
+        if isinstance(b, list) and b and isinstance(b[0], ast.stmt):
+            out.append(b)
+    for h in getattr(node, "handlers", []) or []:
+        out.append(h.body)
+    return out
 
 
 def run(cx):
@@ -73,13 +84,19 @@ def run(cx):
                 elif n.attr == "__class__" or n.attr == "__dict__":
                     # type(node).__name__ is the only idiom in use; __class__/__dict__ traversal is not
                     r.fail(f"dunder[{n.attr}]", (m, n), f"dunder attribute access {norm(n)}")
-    # target() hands the script text to parse() only
+    # the package root (target() and everything beside it): the script text is handed to parse() only - nothing there may
+    # import, locate-by-import or run user modules
+    for n in ast.walk(init.tree):
+        if isinstance(n, (ast.Import, ast.ImportFrom)):
+            roots = [a.name.split(".")[0] for a in n.names] if isinstance(n, ast.Import) else ([] if n.level else [(n.module or "").split(".")[0]])
+            for root in roots:
+                r.check(root in {"pathlib", "sys", "tempfile", "typing", "__future__", "Reduino", "re", "ast", "operator", "dataclasses", "functools", "itertools", "collections", "enum", "textwrap"}, f"__init__/import[{root}]", (init, n), f"the package root imports {root}: target() needs only pathlib/sys/tempfile (importlib/runpy/subprocess machinery can execute the user's modules)", sample=None)
     tgt = init.func("target")
-    for n in walk_local(tgt):
+    for n in ast.walk(init.tree):
         if isinstance(n, ast.Call):
             cn = call_name(n) or ""
             bad = cn in FORBIDDEN_CALLS - {"open"} or cn.split(".")[0] in ("runpy", "importlib")
-            r.check(not bad, f"target/call[{cn}]", (init, n), f"target() must only parse the script text, found {cn}()", sample=None)
+            r.check(not bad, f"__init__/call[{cn}]", (init, n), f"target() and its helpers must only parse the script text, found {cn}()", sample=None)
 
     # ---- C11-EVAL-WL -------------------------------------------------------------------------
     r = cx.rule("C11-EVAL-WL", "_eval_const evaluates only constants, names bound in env, arithmetic via operator.*, safe casts and len/abs/min/max: every callee and every dispatched node class is on the allow-list", floor=30)
@@ -103,6 +120,8 @@ def run(cx):
             why = norm(f)
             if isinstance(f, ast.Name):
                 if f.id in local_defs or f.id in SAFE_EV_BUILTINS:
+                    ok = True
+                elif f.id == "_ensure_representable":   # a pure range check on the folded value (its verdicts are decided by C11-CONVERT)
                     ok = True
                 elif f.id in ("func",):  # value looked up from the compare table, checked above
                     ok = True
@@ -170,6 +189,140 @@ def run(cx):
                     break
             # key by function + normalised argument so that distinct sites stay distinct
             r.check(guarded, f"{fnq}/{call_name(n)}({norm(n.args[0]) if n.args else ''})-unguarded", (pm, n), f"`{stmt_key(n)}` is not inside a try/except Exception: ZeroDivisionError/OverflowError/TypeError from constant folding would escape as an internal error", sample=f"{fnq}: {call_name(n)}({norm(n.args[0]) if n.args else ''})")
+
+    # ---- C11-MIXED --------------------------------------------------------------------------
+    r = cx.rule("C11-MIXED", "a value returned by an argument resolver typed Union[number, str] (a number when the argument folds, C++ text otherwise) is only compared or used in arithmetic under an isinstance guard: `0 <= value <= 7` on the text form would raise TypeError, an internal error, for every non-literal argument", floor=2)
+    mixed = set()
+    for q, fn in pm.funcs.items():
+        if fn.returns is not None:
+            t = norm(fn.returns)
+            if "Union" in t and "str" in t and any(x in t for x in ("int", "float", "bool")):
+                mixed.add(fn.name)
+    if len(mixed) < 5:
+        raise AnalysisError(f"only {len(mixed)} Union[number, str] resolvers found (confirmed: 8)")
+    from ..flow import lexical_conds
+    for q, fn in pm.funcs.items():
+        mv = {}
+        for n in walk_local(fn, include_self=False):
+            if isinstance(n, ast.Assign) and isinstance(n.value, ast.Call) and call_name(n.value) in mixed:
+                for t in n.targets:
+                    if isinstance(t, ast.Name):
+                        mv[t.id] = n
+        if not mv:
+            continue
+        for n in walk_local(fn, include_self=False):
+            risky = None
+            if isinstance(n, ast.Compare) and any(isinstance(o, (ast.Lt, ast.LtE, ast.Gt, ast.GtE)) for o in n.ops):
+                risky = [x for x in [n.left] + list(n.comparators)]
+            elif isinstance(n, ast.BinOp) and isinstance(n.op, (ast.Add, ast.Sub, ast.Mult, ast.Div, ast.Mod, ast.FloorDiv, ast.Pow)):
+                risky = [n.left, n.right]
+            elif isinstance(n, ast.UnaryOp) and isinstance(n.op, ast.USub):
+                risky = [n.operand]
+            if not risky:
+                continue
+            names = set()
+            for x in risky:
+                core = x.args[0] if isinstance(x, ast.Call) and call_name(x) in ("float", "int") and x.args else x
+                if isinstance(core, ast.Name) and core.id in mv and (core.lineno, core.col_offset) > (mv[core.id].lineno, mv[core.id].col_offset):
+                    names.add(core.id)
+            for v in sorted(names):
+                guard = any(c.startswith(f"isinstance({v},") and tv for c, tv in lexical_conds(pm, n)) or any(c.startswith(f"isinstance({v}, str") and not tv for c, tv in lexical_conds(pm, n))
+                child = n
+                for anc in pm.ancestors(n):
+                    if isinstance(anc, ast.BoolOp) and isinstance(anc.op, ast.And):
+                        idx = next((i for i, val in enumerate(anc.values) if val is child or any(val is y for y in ast.walk(val)) and any(child is y for y in ast.walk(val))), None)
+                        if idx is not None and any(isinstance(e, ast.Call) and call_name(e) == "isinstance" and e.args and norm(e.args[0]) == v for e in anc.values[:idx]):
+                            guard = True
+                    if isinstance(anc, (ast.FunctionDef, ast.stmt)) and not isinstance(anc, ast.Expr):
+                        pass
+                    child = anc
+                    if isinstance(anc, ast.FunctionDef):
+                        break
+                r.check(guard, f"{q}/numeric-use-of-mixed[{v}]", (pm, n), f"`{norm(n)}`: {v} comes from {call_name(mv[v].value)}() and is C++ text whenever the argument is not a literal; comparing/adding it without an isinstance guard raises TypeError for such calls", sample=f"{q}: {norm(n)[:50]}")
+
+    # ---- C11-CONVERT -------------------------------------------------------------------------
+    r = cx.rule("C11-CONVERT", "number-to-number conversions of folded constants cannot raise OverflowError: _eval_const hands out only representable values (finite floats, ints within 64 bits, recursively in lists) and every unguarded int(x)/float(x) on a number takes its operand from _eval_const or from a value passed through _ensure_representable; tuple assignment checks its arity before indexing", floor=12)
+    evc = pm.func("_eval_const")
+    rets = [n for n in walk_local(evc) if isinstance(n, ast.Return) and pm.enclosing_func(n) is evc]
+    if not rets:
+        raise AnalysisError("_eval_const has no return")
+    for rt in rets:
+        blk = next((b for b in _stmt_lists(pm.parent[rt]) if rt in b), [])
+        before = blk[:blk.index(rt)] if rt in blk else []
+        okp = isinstance(rt.value, ast.Name) and any(isinstance(st, ast.Expr) and isinstance(st.value, ast.Call) and call_name(st.value) == "_ensure_representable" and st.value.args and norm(st.value.args[0]) == rt.value.id for st in before)
+        r.check(okp, "_eval_const/result-checked-representable", (pm, rt), f"`{stmt_key(rt)}`: the folded value is returned without passing _ensure_representable(...)")
+    er = pm.funcs.get("_ensure_representable")
+    if er is None:
+        r.fail("_ensure_representable/present", (pm, evc), "the representability check of folded constants is gone: inf/nan/huge constants reach int()/float() and raise OverflowError")
+    else:
+        inf = float("inf")
+        for label, v, bad in (("inf", inf, True), ("-inf", -inf, True), ("nan", float("nan"), True), ("2**64", 2 ** 64, True), ("-2**70", -2 ** 70, True), ("[1, inf]", [1, inf], True), ("(nan,)", (float("nan"),), True), ("[[inf]]", [[inf]], True),
+                              ("2**63", 2 ** 63, False), ("1.5", 1.5, False), ("True", True, False), ("'s'", "s", False), ("[1, 2.5]", [1, 2.5], False), ("1e308", 1e308, False), ("0", 0, False)):
+            out = dl.Interp(pm).call(er, [v])
+            r.check((out.kind == "raise" and out.value == "ValueError") if bad else out.kind == "return", f"_ensure_representable({label})", (pm, er), f"_ensure_representable({label}) -> {out!r}; expected {'ValueError' if bad else 'acceptance'}")
+
+    def _try_guarded(n):
+        node = n
+        for anc in pm.ancestors(n):
+            if isinstance(anc, ast.Try) and any(node is b or any(node is x for x in ast.walk(b)) for b in anc.body):
+                for h in anc.handlers:
+                    names = [dotted(t) for t in (h.type.elts if isinstance(h.type, ast.Tuple) else [h.type])] if h.type is not None else ["Exception"]
+                    if set(names) & {"Exception", "BaseException", "OverflowError", "ArithmeticError"}:
+                        return True
+            if isinstance(anc, ast.FunctionDef):
+                return False
+        return False
+
+    from ..src import Locals
+    n_conv = 0
+    for q, fn in pm.funcs.items():
+        loc = None
+        for n in walk_local(fn, include_self=False):
+            if not (isinstance(n, ast.Call) and call_name(n) in ("int", "float") and len(n.args) == 1 and not isinstance(n.args[0], ast.Constant)):
+                continue
+            a = norm(n.args[0])
+            cs = set(lexical_conds(pm, n))
+            child = n
+            for anc in pm.ancestors(n):
+                if isinstance(anc, ast.IfExp) and (anc.body is child or anc.orelse is child):
+                    cs.add((norm(anc.test), anc.body is child))
+                if isinstance(anc, ast.stmt):
+                    break
+                child = anc
+            numeric = [c for c, t in cs if t and c.startswith(f"isinstance({a},") and ("int" in c or "float" in c) and "str" not in c]
+            if any(t and c == f"isinstance({a}, int)" for c, t in cs) and call_name(n) == "int":
+                continue     # int(int)
+            if not numeric or _try_guarded(n):
+                continue
+            if call_name(n) == "int" and all("float" not in c for c in numeric):
+                continue     # int(int)
+            n_conv += 1
+            loc = loc or Locals(fn)
+            ok = False
+            src_name = n.args[0].id if isinstance(n.args[0], ast.Name) else None
+            if src_name:
+                # the definition that reaches the use: the closest preceding assignment to the name in this function
+                prev = [x for x in walk_local(fn, include_self=False) if isinstance(x, ast.Assign) and any(isinstance(t, ast.Name) and t.id == src_name for t in x.targets) and (x.lineno, x.col_offset) < (n.lineno, n.col_offset)]
+                last = max(prev, key=lambda x: (x.lineno, x.col_offset)) if prev else None
+                ok = last is not None and isinstance(last.value, ast.Call) and call_name(last.value) == "_eval_const"
+                # or: the operand (or the container it is drawn from) went through _ensure_representable in this function
+                containers = {src_name}
+                for f_ in walk_local(fn, include_self=False):
+                    if isinstance(f_, ast.For) and isinstance(f_.target, ast.Name) and f_.target.id == src_name and isinstance(f_.iter, ast.Name):
+                        containers.add(f_.iter.id)
+                for c in walk_local(fn, include_self=False):
+                    if isinstance(c, ast.Call) and call_name(c) == "_ensure_representable" and c.args and isinstance(c.args[0], ast.Name) and c.args[0].id in containers and (c.lineno, c.col_offset) < (n.lineno, n.col_offset):
+                        ok = True
+            r.check(ok, f"{q}/{call_name(n)}({a})-operand-representable", (pm, n), f"`{norm(n)}` converts a number that does not come from _eval_const(...)/_ensure_representable(...): float('inf') or a huge int would raise OverflowError, an internal error", sample=f"{q}: {norm(n)}")
+    if n_conv < 8:
+        raise AnalysisError(f"only {n_conv} unguarded numeric conversions found (confirmed: 10)")
+    ha = pm.func("_handle_assignment_ast")
+    tup = [n for n in walk_local(ha) if isinstance(n, ast.If) and norm(n.test) == "isinstance(target, (ast.Tuple, ast.List))"]
+    if len(tup) != 1:
+        raise AnalysisError("tuple-assignment branch not found")
+    guards = [n for n in tup[0].body if isinstance(n, ast.If) and "len(value.elts)" in norm(n.test) and "len(left_names)" in norm(n.test) and isinstance(n.test, ast.Compare) and isinstance(n.test.ops[0], ast.NotEq) and any(isinstance(x, ast.Raise) for x in n.body)]
+    first_index = min([(n.lineno, n.col_offset) for n in walk_local(tup[0]) if isinstance(n, ast.Subscript) and isinstance(n.slice, ast.Name) and n.slice.id == "idx"] or [(10 ** 9, 0)])
+    r.check(len(guards) == 1 and (guards[0].lineno, guards[0].col_offset) < first_index, "_handle_assignment_ast/tuple-arity-checked-before-indexing", (pm, tup[0]), "`a, b = (1,)`: the per-target lists are indexed by target position without a preceding `len(value.elts) != len(left_names)` rejection (IndexError, an internal error)")
 
     # ---- C11-COST ----------------------------------------------------------------------------
     r = cx.rule("C11-COST", "operators whose cost is unbounded in the size of literal operands (**, <<) are guarded by a magnitude check before being applied at transpile time", floor=2)
